@@ -120,7 +120,7 @@ def coq_build(targets=None, jobs=8):
         ok = rc == 0
         # extracted driver: rebuild when the model is newer
         drv = os.path.join(VERIF, "driver", "simdriver")
-        srcs = [os.path.join(COQ, "Model", f) for f in ("Sim.vo", "Types.vo")] + \
+        srcs = [os.path.join(COQ, "Model", f) for f in os.listdir(os.path.join(COQ, "Model")) if f.endswith(".vo")] + \
                [os.path.join(VERIF, "driver", f) for f in ("main.ml", "Extract.v")]
         newest = max((os.path.getmtime(f) for f in srcs if os.path.exists(f)), default=0)
         if (not os.path.exists(drv)) or os.path.getmtime(drv) < newest:
